@@ -248,3 +248,18 @@ pub proof fn lemma_zero_mul(a: int, b: int)
 {
     assert(a * b == 0) by(nonlinear_arith) requires a == 0;
 }
+
+/// integer power, n >= 0
+pub open spec fn ipow(x: int, n: nat) -> int
+    decreases n
+{
+    if n == 0 { 1int } else { x * ipow(x, (n - 1) as nat) }
+}
+
+pub proof fn lemma_ipow10(n: nat)
+    ensures ipow(10, n) == ipow10(n), ipow10(n) >= 1, ipow10(n) as real == qpow(10real, n as int)
+    decreases n
+{
+    if n > 0 { lemma_ipow10((n - 1) as nat); }
+    lemma_qpow10_int(n as int);
+}
